@@ -494,13 +494,24 @@ func poolNewFresh(c *Ctx, prop string, pkgs []string, floor int) {
 				}
 				n++
 				bad := ""
-				for _, ret := range core.Returns(nf) {
-					v := core.Unwrap(ret.Results[0])
-					al, isAl := v.(*ssa.Alloc)
-					if !isAl || al.Parent() != nf {
+				var fresh func(fn *ssa.Function, depth int)
+				fresh = func(fn *ssa.Function, depth int) {
+					for _, ret := range core.Returns(fn) {
+						v := core.Unwrap(ret.Results[0])
+						if al, isAl := v.(*ssa.Alloc); isAl && al.Parent() == fn {
+							continue
+						}
+						// a constructor of this module that itself returns a fresh object
+						if call, isC := v.(*ssa.Call); isC && depth < 3 {
+							if g := call.Call.StaticCallee(); g != nil && len(g.Blocks) > 0 && core.InModule(g) {
+								fresh(g, depth+1)
+								continue
+							}
+						}
 						bad = core.Describe(v)
 					}
 				}
+				fresh(nf, 0)
 				c.check(bad == "", prop+".pool.fresh-new", nf, "the pool's New function returns an object it allocates itself", ci,
 					"returns "+bad+", which is shared by every call: two requests that both find the pool empty get the same object")
 			}
